@@ -109,8 +109,10 @@ def evaluate(run, progs, exe, drv):
             for r in th[1:]:
                 if tag(r) == 'limit':
                     edges = [int(x) for x in r[2][1:]]
-                    if edges and edges != [1, 0, 1, 0, 1, 0, 1, 0]:
+                    if edges and edges[:8] != [1, 0, 1, 0, 1, 0, 1, 0]:
                         run.fail('limit-not-uniform', 'limit %s: accept/reject at (l, l+1) for bytes,string,array,map = %s' % (r[1], edges), case)
+                    elif len(edges) > 8 and edges[8:] != [1, 0, 1, 0, 0]:
+                        run.fail('limit-not-uniform', 'limit %s: container blocks of byte size [l], [l+1], [0.6l, 0.7l, l], [0.6l, 0.7l, l+1], [0.6l, 0.7l, 1.1l] accepted = %s (expected 1 0 1 0 0)' % (r[1], edges[8:]), case)
         explained = False
         for tt in range(len(threads)):
             cid = 'm%d_%d' % (i, tt)
